@@ -281,7 +281,8 @@ def execute(plan, ctx):
             if j.get("_fallback_delay") is not None and not r.get("error") and not (r.get("stats") or {}).get("closed") and not r.get("violations"):
                 for k in range(0, j["_fallback_delay"] + 1):
                     nj = copy.deepcopy(j)
-                    nj.pop("base", None)
+                    for kk in ("base", "_full", "_prefix", "_snap", "_list", "_rerun", "_depth2", "save_final", "snap_dir"):
+                        nj.pop(kk, None)
                     nj.pop("_fallback_delay")
                     nj["id"] = j["id"] + f"-fallback-d{k}"
                     nj["mode"] = "delay"
